@@ -5,8 +5,8 @@ from ..gen_a import Node
 
 PROP_FILE = 'props/C14.v'
 
-CLASSES = ['EFilter', '(EUser 0)', '(EUser 1)', '(EUser 2)', 'EValue', 'EKey', '(EUserBase 0)']
-CATCH = [('EFilter',), ('(EUser 0)',), ('EFilter', '(EUser 2)'), ('EException',), ('ELookup', 'EValue'), ('(EUser 1)',)]
+CLASSES = ['EFilter', '(EUser 0)', '(EUser 1)', '(EUser 2)', 'EValue', 'EKey', '(EUserBase 0)', 'EIndex', 'EIndex']
+CATCH = [('EFilter',), ('(EUser 0)',), ('EFilter', '(EUser 2)'), ('EException',), ('ELookup', 'EValue'), ('(EUser 1)',), ('EIndex',), ('EKey', 'EFilter')]
 
 
 def subset_nodes(r, nmax, budget):
@@ -40,6 +40,17 @@ def subset_nodes(r, nmax, budget):
             d = Node('map', (other,), [d])
         if depth >= 2:
             d = Node('map', (('FAdd', 1),), [d])
+        # structure between the raising stage and the catch: concatenation with a second (healthy) dataset on either side, zip, batch
+        w = r.random()
+        if w < 0.3:
+            m = r.randint(1, 4)
+            vals2 = list(range(30, 30 + m))
+            o = Node('dict', (tuple(zip(gen_a.KEYS[8:8 + m], vals2)), 'pickle')) if keyed else Node('list', (tuple(vals2), 'pickle'))
+            d = Node('concat', (), [d, o] if r.random() < 0.6 else [o, d])
+            if r.random() < 0.3:
+                d = Node('map', (('FAdd', 1),), [d])
+        elif w < 0.36 and n:
+            d = Node('batch', (r.randint(1, 3), False), [d])
         kind = r.choice(['catch', 'catch', 'prefetch1', 'prefetchN', 'catch_items'])
         if kind == 'catch':
             d = Node('catch', (E,), [d])
